@@ -22,8 +22,8 @@ theorem lenDelim_prefixFree (b b' r r' : Bytes)
 
 /-- `types.Encode` is injective on transactions whose integer fields are in the range of their Go
 types (nil = empty and 0 = absent are identified by the model, exactly as proto3 does). -/
-theorem encode_inj (a b : Transaction) (ha : a.WF) (hb : b.WF) (h : encode a = encode b) : a = b :=
-  encode_injective ha hb h
+theorem encode_injective (a b : Transaction) (ha : a.WF) (hb : b.WF) (h : encode a = encode b) : a = b :=
+  encode_injective_aux ha hb h
 
 /-- non-vacuity: a concrete signed transaction is well-formed. -/
 def exTx : Transaction :=
@@ -46,7 +46,7 @@ theorem hash_binds {α : Type} (H : Bytes → α) (a b : Transaction) (ha : a.WF
     (h : hashWith H a = hashWith H b) :
     stripSigHeader a = stripSigHeader b ∨ Collision H := by
   by_cases he : encode (stripSigHeader a) = encode (stripSigHeader b)
-  · exact Or.inl (encode_injective (WF_stripSigHeader ha) (WF_stripSigHeader hb) he)
+  · exact Or.inl (encode_injective_aux (WF_stripSigHeader ha) (WF_stripSigHeader hb) he)
   · exact Or.inr ⟨_, _, he, h⟩
 
 /-- contrapositive reading: changing any hashed field changes the hash, or exhibits a collision. -/
@@ -75,7 +75,7 @@ theorem fullHash_binds {α : Type} (H : Bytes → α) (a b : Transaction) (ha : 
   unfold fullHashWith at h
   rw [clone_id, clone_id] at h
   by_cases he : encode a = encode b
-  · exact Or.inl (encode_injective ha hb he)
+  · exact Or.inl (encode_injective_aux ha hb he)
   · exact Or.inr ⟨_, _, he, h⟩
 
 /-! ## clone -/
@@ -139,7 +139,7 @@ for one is never *the* signature the scheme's `sign` produced for the other. -/
 theorem sign_binds (a b : Transaction) (ha : a.WF) (hb : b.WF)
     (hd : stripSig a ≠ stripSig b) : signBytes a ≠ signBytes b := by
   intro h
-  exact hd (encode_injective (WF_stripSig ha) (WF_stripSig hb) h)
+  exact hd (encode_injective_aux (WF_stripSig ha) (WF_stripSig hb) h)
 
 /-- in particular the header is signed. -/
 theorem header_is_signed (t : Transaction) (ht : t.WF) (hd : Bytes) (hne : hd ≠ t.header) :
